@@ -99,3 +99,80 @@ Definition check (p : proj) (strict_class : bool) (c : case) : verdict :=
     | OutOfFuel => VK
     end
   end.
+
+(* ---- C16: the wording of the fix description is not fixed by the property.  A tree that
+   differs from the model only in those strings still meets it when the description is one
+   injective function of the fix value over the whole read (so it is the element's own stream's
+   description and cannot have leaked from a stream with another fix). ---- *)
+Definition strip_desc (m : meta) : meta :=
+  map (fun kv => if String.eqb (fst kv) "gps_fix_description" then (fst kv, DNil) else kv) m.
+Fixpoint strip_elem (e : elem) : elem :=
+  match e with Elem k t s c d m kids => Elem k t s c d (strip_desc m) (map strip_elem kids) end.
+Fixpoint fix_descs (e : elem) : list (Z * list Z) :=
+  match e with
+  | Elem k t s c d m kids =>
+      (match meta_get m "gps_fix", meta_get m "gps_fix_description" with
+       | Some (DGpsFix v), Some dd => [(v, tok_data dd)]
+       | _, _ => []
+       end) ++ flat_map fix_descs kids
+  end.
+Definition fun_inj (l : list (Z * list Z)) : bool :=
+  forallb (fun p => forallb (fun q => Bool.eqb (fst p =? fst q) (zlist_eqb (snd p) (snd q))) l) l.
+
+Definition check_c16 (c : case) : verdict :=
+  let p := mkProj true false true false in
+  match check p true c with
+  | VV =>
+    match c_class c, read (c_in c) with
+    | 0%nat, Ok t =>
+        if zlist_eqb (tok_tree p (map strip_elem t)) (tok_tree p (map strip_elem (c_tree c))) &&
+           fun_inj (flat_map fix_descs (c_tree c))
+        then VS else VV
+    | _, _ => VV
+    end
+  | v => v
+  end.
+
+(* ---- C07: "value i becomes raw[i] / scale[i mod n]".  For the 64-bit raw types (j, J, Q) the
+   raw value need not be a float64, so the quotient rounded once and the model's
+   convert-then-divide may differ in the last bit; both are the quotient.  A tree that differs
+   from the model only by one unit in the last place in values of such elements still meets
+   the property (S).  For every other type the conversion is exact and the value is fixed. ---- *)
+Definition wide_typ (t : Z) : bool := (t =? 106) || (t =? 74) || (t =? 81).
+Definition ulp_close (a b : Z) : bool := Z.abs (a - b) <=? 1.
+Definition row_close (a b : list Z) : bool :=
+  Nat.eqb (length a) (length b) && forallb (fun '(x, y) => ulp_close x y) (combine a b).
+Definition rows_close (a b : list (list Z)) : bool :=
+  Nat.eqb (length a) (length b) && forallb (fun '(x, y) => row_close x y) (combine a b).
+Definition data_close (d d' : data) : bool :=
+  match d, d' with
+  | DScaled a, DScaled b => row_close a b
+  | DGps r, DGps r' => rows_close r r'
+  | DVec3 k r, DVec3 k' r' => Nat.eqb k k' && rows_close r r'
+  | _, _ => zlist_eqb (tok_data d) (tok_data d')
+  end.
+Fixpoint elem_close (e e' : elem) : bool :=
+  match e, e' with
+  | Elem k t s c d m kids, Elem k' t' s' c' d' m' kids' =>
+      zlist_eqb (tok_bytes k) (tok_bytes k') && (t =? t') && (s =? s') && (c =? c') &&
+      (if wide_typ t then data_close d d' else zlist_eqb (tok_data d) (tok_data d')) &&
+      (fix go (a b : list elem) : bool :=
+         match a, b with
+         | [], [] => true
+         | x :: a', y :: b' => elem_close x y && go a' b'
+         | _, _ => false
+         end) kids kids'
+  end.
+Definition check_c07 (c : case) : verdict :=
+  match check (mkProj true true false false) true c with
+  | VV =>
+    match c_class c, read (c_in c) with
+    | 0%nat, Ok t =>
+        if Nat.eqb (length t) (length (c_tree c)) && forallb (fun '(x, y) => elem_close x y) (combine t (c_tree c)) &&
+           zlist_eqb (tok_visit (map (fun e => (e_key e, e_count e)) (walk_all (skip_pred (c_walkmod c)) t)))
+                     (tok_visit (c_visited c))
+        then VS else VV
+    | _, _ => VV
+    end
+  | v => v
+  end.
